@@ -7,6 +7,8 @@
 #include <cassert>
 #include <cstdint>
 
+#include "verif-hooks.h"
+
 namespace dsplib {
 
 namespace {
@@ -127,6 +129,7 @@ void Pow2FftPlan::_fft(const cmplx_t* restrict in, cmplx_t* restrict out, int n)
         }
 
         //next cascade
+        DSPLIB_VERIF_YIELD();
         m /= 2;
         h *= 2;
         r *= 2;
